@@ -15,7 +15,7 @@ func propC06() *Property {
 	return &Property{
 		ID:      "C06",
 		NeedCG:  true,
-		Decides: "R06.1 in both underlays the replay lookup of the encrypted metadata prefix is made for every received first segment/datagram, before any decryption attempt on that buffer; R06.2 a first segment flagged as a replay never becomes a segment: on the stream no nil-error return is feasible whether or not discovery succeeds, on the packet underlay no segment is returned before the next datagram is read; R06.3 a replay error is handled silently (nothing that may write is called on the failure branch); R06.4 both process-wide caches are created with a positive capacity and a retention interval not shorter than the metadata timestamp acceptance window; R06.5 inventory: every ciphertext read from the stream is looked up, each with the 16-byte prefix of the buffer just read; R06.6 the cache's mutable state is touched only under its mutex (lock discipline of ReplayCache).; R06.7 every demotion of the current generation to previous restarts the expiry clock before the method returns",
+		Decides: "R06.1 in both underlays the replay lookup of the encrypted metadata prefix is made for every received first segment/datagram, before any decryption attempt on that buffer; R06.2 a first segment flagged as a replay never becomes a segment: on the stream no nil-error return is feasible whether or not discovery succeeds, on the packet underlay no segment is returned before the next datagram is read; R06.3 a replay error is handled silently (nothing that may write is called on the failure branch); R06.4 both process-wide caches are created with a positive capacity and a retention interval not shorter than the metadata timestamp acceptance window; R06.5 inventory: every ciphertext read from the stream is looked up, each with the 16-byte prefix of the buffer just read; R06.6 the cache's mutable state is touched only under its mutex (lock discipline of ReplayCache).; R06.7 every demotion of the current generation to previous restarts the expiry clock before the method returns; R06.8 the signature under which an item is remembered is a hash fed with every byte of the item (distinct items that share a prefix never collide by construction)",
 		NotDecided: "the cache's retention / no-false-positive behaviour over operation histories (64-bit FNV collisions, rotation by size and time are value-level), timing.",
 		Rules: []Rule{
 			{ID: "R06.1", Floor: 2, Text: "readOneSegment (stream, packet): IsDuplicate(encryptedMeta[:16], tag) dominates every decrypt/discovery call on that buffer", Run: r06_1},
@@ -23,6 +23,7 @@ func propC06() *Property {
 			{ID: "R06.3", Floor: 3, Text: "the failure branch after readOneSegment (stream) and the packet read loop call nothing that may write to the connection", Run: r05_5},
 			{ID: "R06.4", Floor: 2, Text: "replay.NewCache(capacity, interval): capacity > 0 and interval >= (timestamp margin + 1) minutes", Run: r06_4},
 			{ID: "R06.5", Floor: 4, Text: "every IsDuplicate call passes buffer[:cipher.DefaultOverhead] of a buffer filled from the network in the same function", Run: r06_5},
+			{ID: "R06.8", Floor: 1, Text: "the replay signature is a hash of the whole item", Run: r06_8},
 			{ID: "R06.7", Floor: 1, Text: "every demotion of the current generation to previous restarts the expiry clock before the method returns", Run: r06_7},
 			{ID: "R06.6", Floor: 4, Text: "ReplayCache: every access to a non-constant field in a method happens with mu held; fields read outside the lock are never stored after NewCache and are not reference-typed", Run: r06_6},
 		},
@@ -564,5 +565,81 @@ func r06_7(c *RC) {
 	}
 	if n == 0 {
 		c.Undecided("rotation-restarts-clock", token.NoPos, "no rotation (previous = current) found in pkg/replay")
+	}
+}
+
+// r06_8: the signature under which an item is remembered depends on every
+// byte of the item: computeSignature feeds the whole argument to the hash and
+// returns nothing but that hash. A signature taken from a prefix makes
+// distinct handshakes that share leading bytes (a fixed nonce prefix is a
+// valid traffic pattern) look like replays of each other (seed C06e).
+func r06_8(c *RC) {
+	p := c.P
+	fn := p.Fn("pkg/replay", "ReplayCache.computeSignature")
+	if fn == nil {
+		c.Anchor("ReplayCache.computeSignature")
+		return
+	}
+	var data *ssa.Parameter
+	for _, prm := range fn.Params {
+		if _, ok := prm.Type().Underlying().(*types.Slice); ok {
+			data = prm
+		}
+	}
+	if data == nil {
+		c.Undecided("signature-covers-item", fn.Pos(), "computeSignature has no byte-slice parameter")
+		return
+	}
+	whole := func(v ssa.Value) bool {
+		for {
+			switch x := v.(type) {
+			case *ssa.Slice:
+				if x.Low != nil || x.High != nil {
+					return false
+				}
+				v = x.X
+			default:
+				return v == ssa.Value(data)
+			}
+		}
+	}
+	var writes []ssa.Instruction
+	instrs(fn, func(_ *ssa.BasicBlock, _ int, in ssa.Instruction) {
+		cl, ok := in.(*ssa.Call)
+		if !ok {
+			return
+		}
+		if cl.Call.IsInvoke() && cl.Call.Method.Name() == "Write" && len(cl.Call.Args) == 1 && whole(cl.Call.Args[0]) {
+			writes = append(writes, in)
+		}
+	})
+	n := 0
+	instrs(fn, func(_ *ssa.BasicBlock, _ int, in ssa.Instruction) {
+		r, ok := in.(*ssa.Return)
+		if !ok || len(r.Results) != 1 {
+			return
+		}
+		n++
+		good := true
+		for _, l := range Leaves(retVal(r, 0), nil) {
+			cl, ok := l.(*ssa.Call)
+			if !ok || !cl.Call.IsInvoke() || !strings.HasPrefix(cl.Call.Method.Name(), "Sum") {
+				good = false
+			}
+		}
+		fed := false
+		for _, w := range writes {
+			if instrDominates(w, in) {
+				fed = true
+			}
+		}
+		if good && fed {
+			c.OKH("signature-covers-item", r.Pos(), "the signature is the hash of the whole item")
+		} else {
+			c.Bad("signature-covers-item", r.Pos(), "computeSignature can return %s, which is not a hash fed with the whole item: items that agree on the bytes actually used (e.g. handshakes of a client configured with a fixed nonce prefix) share one signature, and fresh traffic is rejected as a replay", describe(retVal(r, 0)))
+		}
+	})
+	if n == 0 {
+		c.Undecided("signature-covers-item", fn.Pos(), "no return found")
 	}
 }
